@@ -67,33 +67,57 @@ Names == {"a", "b"}
 Vals  == {"v1", "v2"}          \* abstract values; the Go side draws a (kind, concrete value) for each
 
 \* How the two instances come into being (the store must be per instance in every case):
-\*   "separate" : two NewProcess calls, each with its own options
-\*   "shared"   : ONE option list -- WithVariables(a = v1) among them -- reused for both calls
+\*   "separate"   : two NewProcess calls, each with its own options
+\*   "shared"     : ONE option list -- WithVariables(a = v1) among them -- reused for both calls
+\*   "shareditem" : the same, the start variable being a READY-MADE item (schema.NewValue(v1)):
+\*                  both instances are handed the very same item
 \* and how a value is handed to the store:
 \*   "raw"  : SetVariable(name, Go value)       "item" : SetVariable(name, schema.NewValue(Go value))
-Modes == {"separate", "shared"}
+\* Values are VALUES: an item handed in, a snapshot taken (CloneVariables) and the store of a
+\* locator that was merged from are never changed by what is stored later anywhere else.
+Modes == {"separate", "shared", "shareditem"}
 Vias  == {"raw", "item"}
-VARIABLES store, h, mode
-vars == <<store, h, mode>>
+VARIABLES store, h, mode, snap
+vars == <<store, h, mode, snap>>
 Absent == "-"
+NoSnap == [inst |-> 0, vals |-> [n \in Names |-> Absent]]
 Init == /\ mode \in Modes
-        /\ store = [i \in Insts |-> [n \in Names |-> IF mode = "shared" /\ n = "a" THEN "v1" ELSE Absent]]
+        /\ store = [i \in Insts |-> [n \in Names |-> IF mode # "separate" /\ n = "a" THEN "v1" ELSE Absent]]
         /\ h = <<>>
+        /\ snap = NoSnap
+
+Step(op, via, i, n, v) == [op |-> op, via |-> via, inst |-> i, name |-> n, val |-> v, expect |-> store', snap |-> snap']
 
 SetOp(i, n, v, via) ==
   /\ store' = [store EXCEPT ![i][n] = v]
-  /\ h' = Append(h, [op |-> "set", via |-> via, inst |-> i, name |-> n, val |-> v, expect |-> store'])
-  /\ UNCHANGED mode
+  /\ UNCHANGED <<mode, snap>>
+  /\ h' = Append(h, Step("set", via, i, n, v))
 GetOp(i, n) ==
+  /\ UNCHANGED <<store, mode, snap>>
+  /\ h' = Append(h, Step("get", "", i, n, store[i][n]))
+\* CloneVariables of instance i is kept by the caller: a snapshot
+SnapOp(i) ==
+  /\ snap = NoSnap
+  /\ snap' = [inst |-> i, vals |-> store[i]]
   /\ UNCHANGED <<store, mode>>
-  /\ h' = Append(h, [op |-> "get", via |-> "", inst |-> i, name |-> n, val |-> store[i][n], expect |-> store])
+  /\ h' = Append(h, Step("snap", "", i, "", ""))
+\* Locator(i).Merge(Locator(j)): i takes over j's variables, j is left alone
+MergeOp(i, j) ==
+  /\ i # j
+  /\ store' = [store EXCEPT ![i] = [n \in Names |-> IF store[j][n] # Absent THEN store[j][n] ELSE @[n]]]
+  /\ UNCHANGED <<mode, snap>>
+  /\ h' = Append(h, Step("merge", "", i, "", ""))
 Next == /\ Len(h) < MaxOps
         /\ \/ \E i \in Insts, n \in Names, v \in Vals, via \in Vias : SetOp(i, n, v, via)
            \/ \E i \in Insts, n \in Names : GetOp(i, n)
+           \/ \E i \in Insts : SnapOp(i)
+           \/ \E i, j \in Insts : MergeOp(i, j)
 Spec == Init /\ [][Next]_vars
 
 \* isolation: an operation on one instance never changes another instance's variables
 Isolation == [][\A i \in Insts : (h' # h /\ h'[Len(h')].inst # i) => store'[i] = store[i]]_vars
+\* a snapshot, once taken, is a value
+SnapshotIsAValue == [][snap # NoSnap => snap' = snap]_vars
 
 ASSUME TLCSet(1, <<>>)
 Record == (Len(h) = MaxOps) => TLCSet(1, Append(TLCGet(1), [steps |-> h, mode |-> mode]))
